@@ -28,6 +28,17 @@ Obs(lbl, who, A) == IsA(lbl) /\ Ev.who = who /\ A /\ Adv
 EvKey == <<Ev.sc, Ev.gr>>
 Me(t) == A1(cur[t])
 
+\* results of the six query functions (for key k) against the specification state
+QueryOk(E, k) ==
+  /\ k \in Keys
+  /\ Range(E.mem) = QMembers(k) /\ Len(E.mem) = Cardinality(QMembers(k))
+  /\ Range(E.lmem) = QLocalMembers(k) /\ Len(E.lmem) = Cardinality(QLocalMembers(k))
+  /\ Range(E.groups) = QGroups /\ Len(E.groups) = Cardinality(QGroups)
+  /\ Range(E.scopes) = QScopes /\ Len(E.scopes) = Cardinality(QScopes)
+  /\ Range(E.sgroups) = QScopedGroups(k[1]) /\ Len(E.sgroups) = Cardinality(QScopedGroups(k[1]))
+  /\ {<<x.sc, x.gr>> : x \in Range(E.sag)} = QScopesAndGroups
+  /\ Len(E.sag) = Cardinality(QScopesAndGroups)
+
 ThreadEv(t) ==
   \/ Obs("obs.call", t, Begin(t, [k |-> Ev.k, sc |-> Ev.sc, gr |-> Ev.gr, as |-> Ev.as]))
   \/ Obs("obs.ret", t, Ret(t))
@@ -71,15 +82,7 @@ ThreadEv(t) ==
   \/ Int("cleanup.pgleave", t, XLeaveEnd(t))
   \/ Int("status.set", t, XStopped(t) /\ (Strict => Ev.d = Stopped /\ Ev.obj = Me(t)))
   \* queries: results of the six functions against the specification state
-  \/ Obs("obs.query", t, /\ Query(t)
-                         /\ LET k == K(cur[t]) IN
-                            /\ Range(Ev.mem) = QMembers(k) /\ Len(Ev.mem) = Cardinality(QMembers(k))
-                            /\ Range(Ev.lmem) = QLocalMembers(k) /\ Len(Ev.lmem) = Cardinality(QLocalMembers(k))
-                            /\ Range(Ev.groups) = QGroups /\ Len(Ev.groups) = Cardinality(QGroups)
-                            /\ Range(Ev.scopes) = QScopes /\ Len(Ev.scopes) = Cardinality(QScopes)
-                            /\ Range(Ev.sgroups) = QScopedGroups(k[1]) /\ Len(Ev.sgroups) = Cardinality(QScopedGroups(k[1]))
-                            /\ {<<x.sc, x.gr>> : x \in Range(Ev.sag)} = QScopesAndGroups
-                            /\ Len(Ev.sag) = Cardinality(QScopesAndGroups))
+  \/ Obs("obs.query", t, Query(t) /\ QueryOk(Ev, K(cur[t])))
 
 \* the cfg-only snapshot of the four indexes against the specification state
 KeySet(s) == {<<x.sc, x.gr>> : x \in Range(s)}
@@ -113,6 +116,7 @@ InboxOk == \A a \in Actors :
   /\ \A i \in DOMAIN s : Cardinality({j \in DOMAIN s : s[j] = s[i]}) = CopiesIn(s[i], inbox[a])
 
 End == /\ IsA("obs.end") /\ Quiet /\ SnapOk(Ev.snap) /\ (\A a \in Actors : st[a] = Ev.st[a]) /\ InboxOk
+       /\ \A i \in DOMAIN Ev.q : QueryOk(Ev.q[i], <<Ev.q[i].sc, Ev.q[i].gr>>)
        /\ (devs # {} => PrintT(<<"DEVIATION", devs>>))
        /\ UNCHANGED vars /\ Adv
 Leak == IsA("obs.leak") /\ Ev.d = 0 /\ UNCHANGED vars /\ Adv
